@@ -18,10 +18,13 @@ LEVEL_TEXT = ("Bounded relational contract on the real Pipeline.map / map_async:
               "configuration: sequential, ThreadPoolExecutor, ProcessPoolExecutor, per-output executor dicts, storages "
               "dict / file_array / shared_memory_dict and per-output mixes, sync vs async, and environment-model "
               "executors that complete each generation's tasks in reverse and seeded-random order. Real OS "
-              "interleavings inside workers are not decided by this family (N/A part); 'exploration'.")
+              "interleavings inside workers are not decided by this family (N/A part). Proved part (pyvc): "
+              "_executor_for_func (which executor an output's function is submitted to, incl. the '' default entry). "
+              "Category 'other' = that leaf contract + bounded relational checking; it is not a proof of C03.")
 LEVEL_NOTE = ("Schedules are sampled (reverse/random completion per generation through rtc/executors.ShuffleExecutor, "
               "real pools), not enumerated. Trusted: concurrent.futures / asyncio, the reference denotation.")
-TECHNIQUE = "bounded relational contract checking across executor/storage/schedule configurations (no deductive part yet)"
+TECHNIQUE = ("bounded relational contract checking across executor/storage/schedule configurations; leaf "
+             "_executor_for_func discharged by z3")
 EXPLANATION = LEVEL_TEXT
 RULE = ("programs of rtc.progs.gen_map_program with >=2 mapped elements x configurations listed in the level text; "
         "distinct = distinct (program, configuration); non-trivial = a generation with >=2 tasks")
